@@ -4117,3 +4117,68 @@ func c13R21(c *Ctx, r *Report) {
 	}
 	r.Floor(rule, n, 3, "inline labels in instruction emitters")
 }
+
+// ---- C18.R9: 16- and 32-byte payloads of a tagged slot are copied before use ----------------------------------------
+
+func init() {
+	lateInits = append(lateInits, func() {
+		props["C18"].Quick = append(props["C18"].Quick, c18R9)
+		props["C16"].Quick = append(props["C16"].Quick, c18R9)
+		props["C18"].Explanation += " (R9) in the C runtime's print_union the payload pointer, which lies 4 bytes behind the tag, is never cast to a pointer to a 128- or 256-bit number type: those payloads are copied into a local of their type (memcpy) before they are read, since the compiler may load them with instructions that need 16-byte alignment."
+	})
+}
+
+func c18R9(c *Ctx, r *Report) {
+	const rule = "C18.R9"
+	r.Describe(rule, "runtime/libs/io.c print_union: no cast of the payload pointer (the variable defined as the argument plus a non-multiple of 16) to `ferret_{i,u,f}{128,256} *`")
+	cf := cLoad(c, r, rule, "runtime/libs/io.c")
+	if cf == nil {
+		return
+	}
+	fn := cf.Funcs["print_union"]
+	if !r.Anchor(rule, fn != nil && fn.Body() != nil, "io.c:print_union") {
+		return
+	}
+	// the payload variable: initialised with `<cast>param + <n>`
+	payload := ""
+	fn.Walk(func(x *CNode) bool {
+		if x.Kind == "VarDecl" && len(x.Inner) == 1 {
+			src := x.Inner[0].Src()
+			if strings.Contains(src, "+ 4") || strings.Contains(src, "+4") {
+				payload = x.Name
+			}
+		}
+		return true
+	})
+	if !r.Anchor(rule, payload != "", "print_union: payload pointer = union_ptr + 4") {
+		return
+	}
+	n := 0
+	bad := ""
+	var badNode *CNode
+	fn.Walk(func(x *CNode) bool {
+		if x.Kind != "CStyleCastExpr" || len(x.Inner) != 1 {
+			return true
+		}
+		o := x.Inner[0].strip()
+		if o == nil || o.Ref != payload {
+			return true
+		}
+		n++
+		t := x.Type
+		for _, big := range []string{"i128", "u128", "f128", "i256", "u256", "f256"} {
+			if strings.Contains(t, "ferret_"+big) {
+				bad = t
+				badNode = x
+			}
+		}
+		return true
+	})
+	where := c.cpos(cf, fn)
+	if badNode != nil {
+		where = c.cpos(cf, badNode)
+	}
+	r.Check(bad == "", rule, "io.c:print_union", "wide payloads are copied to aligned storage", where,
+		"the payload at offset 4 of the slot is used in place as `"+bad+"`: `let f: f128 = 1.5; io::Println(f);` dies with SIGSEGV (an aligned 16-byte load from an address that is 4 mod 16)")
+	r.Floor(rule, n, 8, "casts of the payload pointer in print_union")
+}
